@@ -43,6 +43,7 @@ TYPE_NAME = {1: 'OPEN', 2: 'UPDATE', 3: 'NOTIFICATION', 4: 'KEEPALIVE', 5: 'ROUT
 TYPES_A = [0, 1, 2, 3, 4, 5, 6, 7, 252, 255]
 BYTE_VALUES = (0x00, 0x01, 0x7F, 0x80, 0xFF)
 PAIR_MAX_LEN = 48
+PAIR_SESSIONS = (0, 3)   # pairs run under ASN4 without ADD-PATH, and under 2-byte AS with ADD-PATH
 SEAM2_EVERY = 4     # quick tier: read_message on every 4th deviation of a seed (+ every one the direct decode flags)
 
 # sessions 0-3 == c02.SESSIONS; session 4 (extended message) carries the 65535-byte ladders only
@@ -72,11 +73,10 @@ neighbor 127.0.0.2 {
   %(addpath_fam)s
   %(extnh_fam)s
   api {
-    processes [ c03-json4 c03-text4 ];
+    processes [ c03-text4 ];
     receive { parsed; packets; consolidate; open; update; notification; keepalive; refresh; operational; }
   }
 }
-process c03-json4 { run /bin/true; encoder json; }
 process c03-text4 { run /bin/true; encoder text; }
 """
 
@@ -191,7 +191,7 @@ class Session:
     def __init__(self, sidx: int) -> None:
         from exabgp.reactor.api.processes import Processes
         from exabgp.reactor.api.response import Response
-        from exabgp.version import json_v4, text_v4
+        from exabgp.version import text_v4
 
         s = SESSIONS[sidx]
         txt = NEIGHBOR % dict(
@@ -211,13 +211,14 @@ class Session:
         got_ap = {(a, sa) for a, sa in ALL_FAMILIES if self.neg.required(_afi(a), _safi(sa))}
         if self.neg.asn4 != s['asn4'] or got_ap != want_ap or self.neg.msg_size != max_size(sidx) or bool(self.neg.nexthop) != s.get('extnh', True):
             raise core.HarnessError(f'session {sidx}: negotiated asn4={self.neg.asn4} addpath={sorted(got_ap)} msg_size={self.neg.msg_size}')
-        # the real Processes object with two helper "processes" whose pipes are its own async write queue.  Their encoders
-        # are the ones Processes._start installs: API v4 text (which itself runs the v6 JSON encoder, then the text one)
-        # and API v4 JSON (the v6 JSON encoder in v4_json mode): all three renderings of every message are produced
+        # the real Processes object with one helper "process" whose pipe is its own async write queue.  Its encoder is the
+        # API v4 text one, as Processes._start installs it: that encoder itself first runs the v6 JSON encoder and then the
+        # text one, so both renderings of every message are produced by production code (NLRI.v4_json, the third, is
+        # called by force() below)
         procs = Processes()
         procs._async_mode = True
-        procs._process = {'c03-json4': object(), 'c03-text4': object()}
-        procs._encoder = {'c03-json4': Response.V4.JSON(json_v4), 'c03-text4': Response.V4.Text(text_v4)}
+        procs._process = {'c03-text4': object()}
+        procs._encoder = {'c03-text4': Response.V4.Text(text_v4)}
         self.procs = procs
         self.peer = _Peer(self.neighbor, procs)
 
@@ -305,12 +306,14 @@ def force(S: Session, mtype: int, m, header: bytes, body: bytes) -> str:
                 str(r.nlri)
                 r.nlri.extensive()
                 r.nlri.json()
+                r.nlri.v4_json(compact=False, nexthop=r.nexthop)
                 r.nlri.index()
                 str(r.nexthop)
             for nl in coll.withdraws:
                 str(nl)
                 nl.extensive()
                 nl.json()
+                nl.v4_json(compact=False)
                 nl.index()
             str(coll.attributes)
             coll.attributes.index()
@@ -889,7 +892,7 @@ def run_ladder(name: str, limit: int):
         execs += e
         for sig, what in v:
             viols.append((sig, f'ladder {name} N={n} ({len(body)} bytes, session {sidx}): {what}', case, len(body)))
-        o, steps = seam1(S, mtype, body)                           # measured run
+        o, steps = seam1(S, mtype, body)                           # measured run (warm caches, same for every member)
         execs += 1
         costs.append((n, steps, o[0]))
     ok = [(n, c) for n, c, o in costs if o == 'ok']
@@ -945,15 +948,18 @@ def worker(job):
         _, tier, sidx, idxs = job
         S = session(sidx)
         seeds = load_seeds()
-        for idx in idxs:
+        for idx, shard, nshards in idxs:
             clear_attribute_cache()
             sd = seeds[idx]
             valid = seed_valid(sd, sidx)
-            _one(res, S, sd['type'], sd['body'], valid, 'seed')
+            if shard == 0:
+                _one(res, S, sd['type'], sd['body'], valid, 'seed')
             every = 1 if tier != 'quick' else SEAM2_EVERY
             for k, (dkind, b) in enumerate(deviations(sd['type'], sd['body'])):
+                if k % nshards != shard:
+                    continue
                 res['kinds'][dkind] += 1
-                _one(res, S, sd['type'], b, False, 'deviation', do_seam2=True if k % every == 0 else 'auto')
+                _one(res, S, sd['type'], b, False, 'deviation', do_seam2=True if (k // nshards) % every == 0 else 'auto')
     elif kind == 'pairs':
         _, tier, sidx, idx, shard, nshards = job
         S = session(sidx)
@@ -1003,13 +1009,19 @@ def jobs_for(tier: str):
         for i in order:
             if sidx == PLAIN_SESSION and seeds[i]['name'].startswith('c02/'):
                 continue
-            group.append(i)
-            weight += max(len(seeds[i]['body']), 8)
-            if weight >= 1500:
-                jobs.append((weight * 8, ('seed', tier, sidx, group)))
+            n = len(seeds[i]['body'])
+            if n > 120:
+                nsh = (n + 119) // 120
+                for sh in range(nsh):
+                    jobs.append((n * n // nsh, ('seed', tier, sidx, [(i, sh, nsh)])))
+                continue
+            group.append((i, 0, 1))
+            weight += max(n, 8)
+            if weight >= 400:
+                jobs.append((weight * 60, ('seed', tier, sidx, group)))
                 group, weight = [], 0
         if group:
-            jobs.append((weight * 8, ('seed', tier, sidx, group)))
+            jobs.append((weight * 60, ('seed', tier, sidx, group)))
     # (a) small bodies
     for sidx in range(4):
         for mtype in TYPES_A:
@@ -1017,20 +1029,20 @@ def jobs_for(tier: str):
             if full:
                 for lo in range(0, 256, 32):
                     fb = ([None] if lo == 0 else []) + list(range(lo, lo + 32))
-                    jobs.append((32 * 257, ('small', sidx, mtype, fb, True)))
+                    jobs.append((32 * 257 * 2, ('small', sidx, mtype, fb, True)))
             else:
-                jobs.append((256 * 6, ('small', sidx, mtype, [None] + list(range(256)), False)))
+                jobs.append((256 * 6 * 2, ('small', sidx, mtype, [None] + list(range(256)), False)))
     # (c) ladders
     for name in LADDERS:
-        jobs.append((4096 * 4, ('ladder', name, 4096)))
-        jobs.append((65535 * 6, ('ladder', name, 65535)))
+        jobs.append((4096 * 40, ('ladder', name, 4096)))
+        jobs.append((65535 * 60, ('ladder', name, 65535)))
     # thorough: pairs
     if tier != 'quick':
         nsh = 8
         for idx, sd in enumerate(seeds):
             n = len(sd['body'])
             if 2 <= n <= PAIR_MAX_LEN:
-                for sidx in range(4):
+                for sidx in PAIR_SESSIONS:
                     for sh in range(nsh):
                         jobs.append((n * n * 25 // nsh, ('pairs', tier, sidx, idx, sh, nsh)))
     jobs.sort(key=lambda j: (-j[0], repr(j[1])))
@@ -1054,7 +1066,7 @@ def run(ctx: core.Ctx) -> None:
     seeds = load_seeds()
     ctx.rule = ('(a) all bodies of length 0-1 for type bytes {0..7,252,255} x 4 sessions (ASN4 on/off x ADD-PATH receive on/off), length 2 in full for types 1..6 on session 0 and with the second byte in {00,01,7f,80,ff} elsewhere; '
                 f'(b) {len(seeds)} frozen seeds x 4 sessions x every single-point deviation (truncation at every offset, every byte <- {{00,01,7f,80,ff,b-1,b+1}}, located length fields <- {{0,-1,+1,max}}, TLV dup/del/swap)'
-                + ('' if ctx.tier == 'quick' else f' + all pairs of byte deviations on seeds <= {PAIR_MAX_LEN} bytes (read_message on every 16th pair)')
+                + ('' if ctx.tier == 'quick' else f' + all pairs of byte deviations on seeds <= {PAIR_MAX_LEN} bytes on sessions {PAIR_SESSIONS} (read_message on every 16th pair and on every pair the direct decode flags)')
                 + f'; (c) {len(LADDERS)} scaling ladders N=1,2,4,.. to the 4096- and 65535-byte limits; each input through Message.unpack+forcing and through Protocol.read_message; '
                 'non-trivial = the input passes the message-header size rule and so reaches a body decoder')
     ctx.assumptions += ['validity of seeds and ladder members == vt/ref/wire strict decoder (RFC 7606 3.g for repeated attribute codes); recorded QA messages the reference does not model are presumed valid in session 0',
